@@ -29,6 +29,9 @@ pub fn def() -> PropDef {
 #[derive(Clone, Debug, Serialize, Deserialize)]
 pub enum SOp {
     Add(RichDoc, Option<i16>),
+    /// `n` copies of the document whose sort values cycle through a few values (many ties inside one segment, merges of
+    /// more than 20 documents); every `none_every`-th copy has no sort value (0 = never)
+    AddRun(RichDoc, u8, u8, u8),
     DelUid(u16),
     DelTag(u8),
     Commit,
@@ -72,6 +75,7 @@ impl Sub for Sorted {
         ];
         let op = prop_oneof![
             20 => (rich_doc_strategy(), sortval).prop_map(|(d, s)| SOp::Add(d, s)),
+            2 => (rich_doc_strategy(), 8u8..32, 1u8..5, prop_oneof![2 => Just(0u8), 1 => 3u8..9]).prop_map(|(d, n, step, none_every)| SOp::AddRun(d, n, step, none_every)),
             4 => any::<u16>().prop_map(SOp::DelUid),
             2 => (0u8..5).prop_map(SOp::DelTag),
             5 => Just(SOp::Commit),
@@ -117,6 +121,18 @@ impl Sub for Sorted {
                     all.push((d.clone(), *x));
                     pending.insert(uid);
                     txn_added.insert(uid);
+                }
+                SOp::AddRun(d, n, step, none_every) => {
+                    for k in 0..*n {
+                        let x = if *none_every > 0 && k % *none_every == *none_every - 1 { None } else { Some(((k as i16) * (*step as i16)) % 3) };
+                        let uid = all.len() as u64;
+                        for s in sides.iter() {
+                            s.w.add_document(to_tantivy_sorted(uid, d, &s.f, c.kind, x)).or_fail("add_failed")?;
+                        }
+                        all.push((d.clone(), x));
+                        pending.insert(uid);
+                        txn_added.insert(uid);
+                    }
                 }
                 SOp::DelUid(raw) => {
                     if !all.is_empty() {
